@@ -87,7 +87,7 @@ fn seqs<C: CI + MaskableMut + ComplementMut>(ctx: &mut Ctx, mask_code: fn(u8) ->
     let pw = per_word(a.bits);
     let noff = n_offsets(a.bits);
     ctx.group(&format!("{name}/sequences"), |ctx| {
-        let lens: Vec<usize> = if ctx.lite { vec![0, 1, pw + 1 + ctx.shard % 2] } else { (0..=3 * pw + 2).chain(long_lengths(a.bits)).collect() };
+        let lens: Vec<usize> = if ctx.lite { vec![0, 1, pw + 1 + ctx.shard % 2] } else { (0..=3 * pw + 2).chain(long_lengths(a.bits)).chain(huge_lengths(ctx, a.bits)).collect() };
         // (length, Some(pad) = exact-fit operands: allocation without spare words, nothing after the window)
         let plan = exact_plan(ctx, a.bits, lens);
         for (n, exact_pad) in plan {
@@ -96,7 +96,10 @@ fn seqs<C: CI + MaskableMut + ComplementMut>(ctx: &mut Ctx, mask_code: fn(u8) ->
                     break;
                 }
                 let _fit = exact_pad.map(|_| exact_fit_mode());
-                let x: Vec<u8> = if rep == 0 { cover_codes(&mut ctx.rng, a, n) } else { rand_codes(&mut ctx.rng, a, n) };
+                if n > 1100 && rep > 0 {
+                    break; // far-from-small lengths: one structured content each
+                }
+                let x: Vec<u8> = if n > 1100 { structured_codes(&mut ctx.rng, a, n, n) } else if rep == 0 { cover_codes(&mut ctx.rng, a, n) } else { rand_codes(&mut ctx.rng, a, n) };
                 let x: Vec<u8> = x.into_iter().map(subst).collect();
                 // built by parse, and by to_owned() of an offset slice
                 let pad = exact_pad.unwrap_or((n * 3 + rep * 7 + 1) % noff);
